@@ -620,12 +620,25 @@ size_t qlisttbl_remove(qlisttbl_t *tbl, const char *name)
 
     qlisttbl_obj_t obj;
     memset((void*)&obj, 0, sizeof(obj)); // must be cleared before call
+    char *keepname = NULL;
     qlisttbl_lock(tbl);
     while (qlisttbl_getnext(tbl, &obj, name, false) == true) {
+        if (obj.name == name) {
+            // the caller passed the name stored in this very entry (as a walk
+            // without newmem hands it out): the string is still needed to
+            // find the remaining matches, so it is released after the loop.
+            qlisttbl_obj_t *this = (obj.prev != NULL) ? obj.prev->next
+                    : (obj.next != NULL) ? obj.next->prev : tbl->first;
+            if (this != NULL && this->name == name) {
+                this->name = NULL;
+                keepname = obj.name;
+            }
+        }
         qlisttbl_removeobj(tbl, &obj);
         numremoved++;
     }
     qlisttbl_unlock(tbl);
+    free(keepname);
 
     return numremoved;
 }
